@@ -140,9 +140,13 @@ def invariant_loop(eng, stmt, label, spec, view, s, iter_val=None, guard=None):
     # 2. havoc
     hs = s.copy()
     mod_refs = []
+    from .values import RefSet, in_frame
     for m in spec.get("modifies", []):
-        v = eng.as_val(hs, spec_value(eng, ast.parse(m.strip(), mode="eval").body, hs, {}))
-        mod_refs.append(get_ref(v.t))
+        v = spec_value(eng, ast.parse(m.strip(), mode="eval").body, hs, {})
+        if isinstance(v, RefSet):
+            mod_refs.append(v)
+        else:
+            mod_refs.append(get_ref(eng.as_val(hs, v).t))
     for name in receivers:
         if name in assigned:
             continue
@@ -151,14 +155,14 @@ def invariant_loop(eng, stmt, label, spec, view, s, iter_val=None, guard=None):
             mod_refs.append(get_ref(v.t))
     if is_for and isinstance(iter_val, SV):
         for r in mod_refs:
-            if smt.is_true(r == get_ref(iter_val.t)):
+            if not isinstance(r, RefSet) and smt.is_true(r == get_ref(iter_val.t)):
                 raise Unsupported("loop body mutates the sequence it iterates")
     loop_alloc = hs.heap.alloc
     if writes:
         kinds = list(ARR_KINDS)
         flds = sorted(set(fields) | set(spec.get("modifies_fields", hs.heap.fld.keys())))
         new = hs.heap.havoc(kinds, flds, label.replace("#", ""))
-        may = (lambda r: z3.Or([r == x for x in mod_refs])) if mod_refs else (lambda r: z3.BoolVal(False))
+        may = (lambda r: in_frame(r, mod_refs))
         hs.assume(*new.frame_facts(hs.heap, kinds, flds, may))
         hs.heap = new
         hs.assume(*new.closed_facts())
